@@ -151,8 +151,8 @@ impl Property for C01 {
     type Case = Case;
     const ID: &'static str = "C01";
     fn rule(&self) -> String {
-        "cases: (i) element recipes (trees of public-API operations incl. torsion shift, (r-1)*P, affine round trip, P+S-S) \
-         interpreted on ark, min and the big-integer model; (ii) 32-byte strings, ~half near-misses of valid encodings; (iii) recipe \
+        "cases: (i) element recipes (trees of public-API operations incl. torsion shift, (r-1)*P, affine round trip, P+S-S; \
+         interpreted on ark, min and the big-integer model; arithmetic routed through every catalogued operator / iterator form) (ii) 32-byte strings, ~half near-misses of valid encodings, strings that tie with q in their top limbs and strings solved from structured intermediate values of decoding, decoded through every entry point incl. readers that deliver the bytes in pieces; (iii) recipe \
          pairs (half constructed equal). Oracle: model decodeSpec/encodeSpec + affine group law. Non-trivial: (i) result has Z != 1 \
          or is the non-canonical representative, (ii) string that decodes, (iii) both elements non-identity; distinct by digest of the case"
             .into()
